@@ -100,11 +100,11 @@ def handleTables : Handler := fun input impl =>
         let panicOk := σ.panic.isNone
         -- the resolution core (`Scope/Core.lean`, the machine `Props/C01.lean` proves equal to Lua's resolver):
         -- every read it records, with the local declaration it denotes, against the implementation's read references
-        let coreSt := @Core.analyse ⟨fun _ => true⟩ chunk.block
-        let coreRefs : List (Nat × Option Nat) := (coreSt.refs.filter fun r => !r.decl).map fun r => (r.tok, Core.localBinding r)
+        let coreSt := Core.analyse chunk.block
+        let coreRefs : List (Nat × Option Nat) := (coreSt.refs.filter fun r => !r.decl && !r.write).map fun r => (r.tok, Core.localBinding r)
         -- … and every declaration it records, with the local declaration it shadows (`Props/C03.lean`), against
         -- `ScopeManager.variables[*].shadowed` (globals the file assigns are no declarations, `...` is of no interest)
-        let coreDecls : List (Nat × Option Nat) := coreSt.shadows
+        let coreDecls : List (Nat × Option Nat) := @Core.St.shadows Core.NameFilter.all coreSt
         let globalVars : List Nat := ivars.filterMap fun v => match v with
           | .list [_, id, _, _, _, g] => if g.asBool? == some true then id.asNat? else none
           | _ => none
@@ -123,7 +123,13 @@ def handleTables : Handler := fun input impl =>
               | none => none)
           | _ => none
         let showAns := fun (l : List (Nat × Option Nat)) => sortStrs (l.map fun (t, b) => s!"{t}->{optNat b}")
-        let coreOk := showAns coreRefs == showAns implReads && showAns coreDecls == showAns implDecls
+        -- … and the lint over the machine's log (`Props/C01.lean`: C01_sound / C01_complete) against the
+        -- implementation's `undefined_variable` diagnostics
+        let coreUndef := sortStrs ((Core.undefinedReports hasFields coreSt).eraseDups.map toString)
+        let implUndef := sortStrs ((idiags.filterMap fun d => match d with
+          | .list [.str "undefined_variable", .list [a, _], _, _] => a.asNat?
+          | _ => none).eraseDups.map toString)
+        let coreOk := showAns coreRefs == showAns implReads && showAns coreDecls == showAns implDecls && coreUndef == implUndef
         -- ---------- specification checks on the implementation's tables / diagnostics ----------
         let declToks := spec.decls.map (·.tok)
         -- implementation's view: token ↦ resolved declaration token (only script declarations count as local bindings)
@@ -229,7 +235,7 @@ def handleTables : Handler := fun input impl =>
           model := (if md == idk then "" else "DEFAULT-CONFIG-DIAGS ") ++ (if panicOk then "" else s!"MODEL-PANIC {repr σ.panic} ") ++
                    (if refsOk then "" else s!"REFS model {mrefs} ") ++ (if varsOk then "" else s!"VARS model {mvars} ") ++
                    (if callsOk then "" else s!"CALLS model {mcalls} ") ++
-                   (if coreOk then "" else s!"CORE model reads {showAns coreRefs} impl {showAns implReads} decls {showAns coreDecls} impl {showAns implDecls} ") ++ (if diagsOk then "" else s!"DIAGS model {md} impl {idk}"),
+                   (if coreOk then "" else s!"CORE model reads {showAns coreRefs} impl {showAns implReads} decls {showAns coreDecls} impl {showAns implDecls} undefined {coreUndef} impl {implUndef} ") ++ (if diagsOk then "" else s!"DIAGS model {md} impl {idk}"),
           tags }
       | _ => .malformed "tables impl"
     | _, _ => .malformed "tables chunk"
